@@ -50,6 +50,49 @@ def literal_of(e, subst):
     return None
 
 
+def regex_compilers(prog):
+    """name -> (index of the regex argument, index of the pattern argument) in call.a[1:], for regcomp() and every
+    library function that passes its own regex and pattern parameters on to a known compiler (closure): wrappers such
+    as create_regex(zck, reg, pattern) or an allocating new_regex(zck, &reg, pattern) are found by what they do."""
+    cached = getattr(prog, '_regex_compilers', None)
+    if cached is not None:
+        return cached
+    comp = {'regcomp': (0, 1)}
+    changed = True
+    while changed:
+        changed = False
+        for f in prog.lib_funcs():
+            if f.name in comp or f.body is None:
+                continue
+            pidx = dict((p.decl, i) for i, p in enumerate(f.params))
+            for c in calls_of(f, tuple(comp)):
+                ri, pi = comp[callee_name(c)]
+                args = c.a[1:]
+                if max(ri, pi) >= len(args):
+                    continue
+                r = strip(args[ri])
+                while r is not None and r.k == 'un' and r.op in ('*', '&'):
+                    r = strip(r.a[0])
+                pt = strip(args[pi])
+                if r is not None and r.k == 'var' and r.decl in pidx and pt is not None and pt.k == 'var' and \
+                        pt.decl in pidx:
+                    comp[f.name] = (pidx[r.decl], pidx[pt.decl])
+                    changed = True
+                    break
+    prog._regex_compilers = comp
+    return comp
+
+
+def compile_args(prog, c):
+    ri, pi = regex_compilers(prog)[callee_name(c)]
+    a = c.a[1:]
+    reg = a[ri]
+    sr = strip(reg)
+    if sr is not None and sr.k == 'un' and sr.op == '&':
+        reg = sr.a[0]
+    return reg, a[pi]
+
+
 def pattern_sources(prog):
     """regex field -> (kind, text) for every create_regex()/regcomp() site in the library; kind is
     'literal' (string literal), 'quoted' (format literal + run-time text, every inserted string being the result of
@@ -57,9 +100,8 @@ def pattern_sources(prog):
     out = {}
     for fn in prog.lib_funcs():
         subst = single_defs(fn)
-        for c in calls_of(fn, ('create_regex', 'regcomp')):
-            reg = c.a[2] if callee_name(c) == 'create_regex' else c.a[1]
-            pat = c.a[3] if callee_name(c) == 'create_regex' else c.a[2]
+        for c in calls_of(fn, tuple(regex_compilers(prog))):
+            reg, pat = compile_args(prog, c)
             f = last_field(reg)
             if f is None:
                 continue
@@ -262,8 +304,9 @@ def check_pattern_injection(ck, prog, config, clause):
     n = 0
     for fn in sorted(prog.lib_funcs(), key=lambda f: f.qname):
         subst = single_defs(fn)
-        for c in calls_of(fn, ('create_regex', 'regcomp')):
-            pat = strip(c.a[3] if callee_name(c) == 'create_regex' else c.a[2])
+        for c in calls_of(fn, tuple(regex_compilers(prog))):
+            reg_, pat_ = compile_args(prog, c)
+            pat = strip(pat_)
             if pat.k != 'var' or pat.decl not in subst:
                 continue
             d = strip(subst[pat.decl])
@@ -275,7 +318,7 @@ def check_pattern_injection(ck, prog, config, clause):
             b = builders[0]
             ins = builder_inserts(prog, b)
             ck.require(len(ins) >= 1, '%s: pattern builder without a printf-style insertion' % b.name)
-            field = last_field(c.a[2] if callee_name(c) == 'create_regex' else c.a[1])
+            field = last_field(reg_)
             for ok, why, a, fc in ins:
                 n += 1
                 sa = strip(a)
